@@ -452,7 +452,7 @@ class Verifier(Executor):
         return Arr(obj)
 
     # ------------------------------------------------------------------ whole function
-    def verify(self, arity=None):
+    def verify(self, arity=None, pin=None):
         """run the function against its contract. arity: dict shape symbol -> int (unroll mode) or None (invariant mode)"""
         con = self.cur_contract
         fi = self.fi
@@ -474,6 +474,20 @@ class Verifier(Executor):
         for g, t in con.ghost.items():
             st.ghost_env[g] = self.fresh_value(t, g, st, syms)
         st.ghost_env.update(syms)
+        self.pin = pin
+        self.concrete_runs = []
+        if pin is not None:
+            import itertools as _it
+            for name, enc in list(pin.get("params", {}).items()) + list(pin.get("ghost", {}).items()):
+                v = st.env.get(name, st.ghost_env.get(name))
+                if isinstance(v, Arr) and isinstance(enc, dict):
+                    import numpy as _np
+                    a = _np.array(enc["array"], dtype=object).reshape(enc["shape"])
+                    for ix in _it.product(*[range(s) for s in enc["shape"]]):
+                        c = z3.Select(st.heap[v.obj.id], *[z3.IntVal(i) for i in ix])
+                        st.pc.append(c == (z3.BoolVal(bool(a[ix])) if v.obj.dtype == "bool" else z3.IntVal(int(a[ix]))))
+                elif is_sym(v) and isinstance(enc, (int, bool)):
+                    st.pc.append(v == enc)
         st.old = st  # requires are evaluated on the entry state
         self.cur_tags = set()
         for label, clause, tags in con.clauses("requires"):
@@ -502,6 +516,8 @@ class Verifier(Executor):
         if isinstance(res, AExpr):
             res = self.materialize(s, res, "result")
         extra = {"result": res}
+        if getattr(self, "pin", None) is not None:
+            self.record_concrete(s, res)
         self.apply_hints(s, con.hints, extra)
         line = self.line
         for label, clause, tags in con.clauses("ensures"):
@@ -587,3 +603,26 @@ class Verifier(Executor):
                 elif isinstance(v, (int, bool)) or v is None:
                     out[key][name] = v
         return out
+
+    def record_concrete(self, s, res):
+        import itertools as _it
+        sol = z3.Solver()
+        sol.set("timeout", 10000)
+        for f in self.axioms + s.pc:
+            sol.add(f)
+        if sol.check() != z3.sat:
+            return
+        m = sol.model()
+
+        def val(x):
+            r = m.eval(x, model_completion=True)
+            return r.as_long() if z3.is_int_value(r) else (True if z3.is_true(r) else (False if z3.is_false(r) else str(r)))
+
+        out = {}
+        for name, v in self.entry.env.items():
+            if isinstance(v, Arr) and all(isinstance(d, int) for d in v.obj.shape):
+                out[name] = [val(z3.Select(s.heap[v.obj.id], *[z3.IntVal(i) for i in ix])) for ix in _it.product(*[range(d) for d in v.obj.shape])]
+        r = res
+        if is_sym(r):
+            r = val(r)
+        self.concrete_runs.append(dict(result=r if isinstance(r, (int, bool)) or r is None else str(r), arrays=out, line=self.line))
